@@ -86,7 +86,11 @@ func genMotif(rt *rapid.T, w *World, motif int) {
 					if i > late && shFixed {
 						sv = "2.0.0"
 					}
-					v.Deps = append(v.Deps, Dep{Name: sh, Req: req(f, sv)})
+					r := req(f, sv)
+					if i == late && chance(rt, l+".pin", 1, 3) {
+						r = draw(rt, l+".pinat", "1.0.0", "1.1.0") // the two parents may install different versions
+					}
+					v.Deps = append(v.Deps, Dep{Name: sh, Req: r})
 				}
 				p.Vers = append(p.Vers, v)
 			}
@@ -105,6 +109,9 @@ func genMotif(rt *rapid.T, w *World, motif int) {
 			shAff = shAff[:1]
 		}
 		w.Vulns = append(w.Vulns, affect("V3", sh, shAff...))
+		if len(shAff) == 2 && chance(rt, "m.shpersev", 1, 3) {
+			splitSeverity(&w.Vulns[2], 1, chance(rt, "m.shlowfirst", 1, 2))
+		}
 		if chance(rt, "m.shrange", 2, 3) {
 			addRange(w, &w.Vulns[2].Affected[0])
 		}
@@ -276,7 +283,9 @@ func genMotif(rt *rapid.T, w *World, motif int) {
 		}
 	}
 	for i := range w.Vulns {
-		w.Vulns[i].Severity = draw(rt, fmt.Sprintf("m.sev%d", i), "", "", "high", "low")
+		if sv := draw(rt, fmt.Sprintf("m.sev%d", i), "", "", "high", "low"); w.Vulns[i].Affected[0].Severity == "" {
+			w.Vulns[i].Severity = sv
+		}
 		w.Vulns[i].Withdrawn = chance(rt, fmt.Sprintf("m.withdrawn%d", i), 1, 10)
 	}
 }
